@@ -78,3 +78,17 @@ Theorem history_honours_data (K : nat -> list (option R) -> list R) (ops : list 
 Proof.
   intros s L1 L2 E1 E2 EK HF. unfold heval. rewrite EK, E1, E2. unfold krige_cond. apply roundtrip_lists; assumption.
 Qed.
+
+(* ---- Krige.get_mean(post_process=True): the (given or estimated) raw mean through mean and normalizer, no trend *)
+Section GetMean.
+  Context {T : Type} (O : NumOps T).
+  Definition get_mean (k : nkind) (p : npar T) (m rawm : T) : option T := denormalize O k p (nadd O rawm m).
+  (* a field evaluated with only_mean=True is get_mean plus the trend at the point *)
+  Theorem only_mean_is_get_mean_plus_trend k p m t rawm :
+    apply_pt O k p m t rawm = option_map (fun v => nadd O v t) (get_mean k p m rawm).
+  Proof. reflexivity. Qed.
+End GetMean.
+Theorem get_mean_roundtrip k p m rawm : in_range Rops (denorm_range Rops k p) (rawm + m) = true ->
+  get_mean Rops k p m rawm = Some (denormalize_raw Rops k p (rawm + m)) /\
+  normalize Rops k p (denormalize_raw Rops k p (rawm + m)) = Some (rawm + m).
+Proof. intros H. unfold get_mean. apply (norm_denorm k p (rawm + m) H). Qed.
